@@ -225,8 +225,35 @@ def enum_raise_body_fails(cls, fk, hs):
     return [T('<'), t] + probe_after() + probe_end()
 
 
+USER_HANDLERS = [['ServiceError'], ['ConnectionError'], ['TimeoutError'],
+                 ['OSError'], ['NotFound'], ['KeyError'], ['LookupError'],
+                 ['Exception'], []]
+
+
+def enum_user_named(raiser, hs, wrapk):
+    """Python code called from the try body raises a class of the
+    application's own hierarchy whose names are also builtin names."""
+    handlers = [dict(names=names, body=[T('H%d(' % i), V('error_type'),
+                                         T(')')])
+                for i, names in enumerate(hs)]
+    t = dict(k='try', body=[V('fa')] + wrap(wrapk, [T('b'), V(raiser)]) +
+             [T('not-reached')], handlers=handlers,
+             **{'else': None, 'finally': None})
+    outer = dict(k='try', body=[T('<'), t], handlers=[
+        dict(names=['ServiceError'], body=[T('outer-svc')]),
+        dict(names=[], body=[T('outer-any:'), V('error_type')])],
+        **{'else': None, 'finally': None})
+    return [outer] + probe_after() + probe_end()
+
+
 def enum_cases():
     import itertools
+    for raiser in ('fut', 'fuc', 'fun', 'fuk'):
+        for hs in [[h] for h in USER_HANDLERS] + [
+                [a, b] for a, b in itertools.product(USER_HANDLERS, repeat=2)
+                if a != b and a != []]:
+            for wrapk in ('none', 'in', 'let'):
+                yield ['user-named', raiser, hs, wrapk]
     for cls in ('VfA', 'VfB', 'VfM', 'KeyError', 'ZeroDivisionError'):
         for fk in ('div0', 'fr', 'undef', 'type'):
             for hs in [[h] for h in HSETS] + [[['VfX'], ['VfB']],
@@ -255,6 +282,8 @@ def enum_cases():
 
 
 def enum_ast(c):
+    if c[0] == 'user-named':
+        return enum_user_named(*c[1:])
     if c[0] == 'raise-body-fails':
         return enum_raise_body_fails(*c[1:])
     if c[0] == 'except':
